@@ -1383,6 +1383,25 @@ def early_continue(source: str) -> str:
                     body=[ast.Continue()], orelse=stmt.body, test=_negate_condition(stmt.test)
                 )
 
+    # A replaced if is unparsed as a whole: edits inside it would be spliced into stale positions.
+    # Only the outermost replacements are applied; the nested loops are picked up on the next run.
+    def _is_inside(lineno: int, end_lineno: int, node: ast.AST) -> bool:
+        return node.lineno <= lineno and end_lineno <= node.end_lineno
+
+    replacements = {
+        node: replacement
+        for node, replacement in replacements.items()
+        if not any(
+            other is not node and _is_inside(node.lineno, node.end_lineno, other)
+            for other in replacements
+        )
+    }
+    additions = [
+        node
+        for node in additions
+        if not any(_is_inside(node.lineno, node.lineno, other) for other in replacements)
+    ]
+
     return processing.alter_code(source, root, additions=additions, replacements=replacements)
 
 
